@@ -63,7 +63,8 @@ def build(clean=False, timeout=1800):
 def grep_gate():
     """No Admitted/admit/Axiom/... anywhere in the development (comments excluded)."""
     hits = []
-    for p in sorted(glob.glob(os.path.join(COQ, "*.v"))):
+    listed = [l.strip() for l in open(os.path.join(COQ, "_CoqProject")) if l.strip().endswith(".v")]
+    for p in [os.path.join(COQ, f) for f in listed]:
         src = open(p).read()
         src = strip_comments(src)
         for m in FORBIDDEN.finditer(src):
